@@ -41,6 +41,53 @@ static const int MAXV[] = { 0, 0, 0, 0, 0, 10, 5, 8, 20 };     /* documented max
 static const int DEFV[] = { 0, 0, 0, 0, 0, 1, 1, 0, 10 };       /* documented defaults */
 static uint32_t fbits(float f) { uint32_t u; memcpy(&u, &f, 4); return u; }
 
+#if defined(UNIT_WHOLE)
+/* whole-object query (property name ""): reports 'changed' exactly when ANY member differs from the default line */
+void harness(void)
+{
+	line_t li, def; uint8_t in_pre[sizeof(line_t)]; MPT_STRUCT(property) pr; int r; size_t k; int differs = 0; V_FILL(in_pre);
+	memcpy(&li, in_pre, sizeof(li));
+	mpt_line_init(&def);
+	for (k = 0; k < sizeof(li); k++) if (((const uint8_t *) &li)[k] != ((const uint8_t *) &def)[k]) differs = 1;
+	pr.name = ""; pr.desc = 0;
+	r = mpt_line_get(&li, &pr);
+	V_CHECK("get(whole object): 'changed' exactly when some member differs from the default", r == (differs ? 1 : 0));
+	V_CHECK("get(whole object): the object is not modified", memcmp(&li, in_pre, sizeof(li)) == 0);
+	V_COVER("only a position differs", r == 1 && memcmp(&li, &def, 8) == 0);
+	V_COVER("default line", r == 0);
+	V_CANARY();
+}
+#elif defined(UNIT_HTML)
+/* html colour text "RRGGBB[AA]" (hex pair parser by stand-in): every channel incl. alpha is stored as parsed */
+static int g_pairs; static uint8_t g_vals[4]; static int g_fail_at;
+int mpt_cuint8(uint8_t *out, const char *txt, int base, const uint8_t range[2])
+{
+	(void) txt; (void) range;
+	if (base != 0x10 || g_pairs >= 4) return MPT_ERROR(BadArgument);
+	if (g_pairs + 1 == g_fail_at) { g_pairs++; return MPT_ERROR(BadValue); }
+	*out = g_vals[g_pairs++];
+	return 2;
+}
+void harness(void)
+{
+	char in_txt[9]; IN(int, in_fail_at); IN(int, in_has_col); uint8_t in_vals[4]; MPT_STRUCT(color) col, old; uint8_t in_pre[sizeof(MPT_STRUCT(color))]; int r, n, i;
+	V_FILL(in_txt); V_FILL(in_vals); V_FILL(in_pre);
+	in_txt[8] = 0;
+	for (n = 0; n < 8 && in_txt[n]; n++) ;
+	memcpy(&col, in_pre, sizeof(col)); old = col;
+	for (i = 0; i < 4; i++) g_vals[i] = in_vals[i];
+	g_fail_at = in_fail_at; g_pairs = 0;
+	r = mpt_color_html(in_has_col ? &col : 0, in_txt);
+	V_CHECK("html: an odd number of digits or a malformed pair is refused, the colour untouched", IMP((n & 1) || (in_fail_at >= 1 && in_fail_at <= n / 2), r < 0 && memcmp(&col, &old, sizeof(col)) == 0));
+	if (r >= 0 && in_has_col) {
+		V_CHECK("html: reports the pairs given (the terminator is counted when fewer than four pairs are given)", r == n || (n < 8 && r == n + 1));
+		V_CHECK("html: red, green, blue as parsed (missing pairs: 0)", col.red == (n >= 2 ? in_vals[0] : 0) && col.green == (n >= 4 ? in_vals[1] : 0) && col.blue == (n >= 6 ? in_vals[2] : 0));
+		V_CHECK("html: alpha as parsed, opaque when not given", col.alpha == (n >= 8 ? in_vals[3] : 255));
+	}
+	V_COVER("alpha given and not opaque", r == 8 && in_has_col && in_vals[3] != 255);
+	V_CANARY();
+}
+#else
 void harness(void)
 {
 	IN(int, in_p); IN(int, in_null); IN(int, in_mask); IN(int, in_empty);
@@ -97,3 +144,4 @@ void harness(void)
 	V_COVER("color set", in_p == 4 && r >= 0 && !in_null);
 	V_CANARY();
 }
+#endif
